@@ -85,7 +85,7 @@ def stale_histories(out, n):
         for _ in range(rnd.choice([1, 2, 3, 5, 8])):
             k = rnd.choice(["out", "out", "in", "get", "saveload"])
             if k in ("out", "in"):
-                l = [f"E{rnd.randint(2, 5)}" for _ in range(rnd.choice([0, 1, 2, 2, 3]))]
+                l = [f"E{rnd.randint(2, 4)}" for _ in range(rnd.choice([0, 1, 2, 2, 3, 4]))]     # repeats give counts > 1
                 (e.update_event_sets if k == "out" else e.update_in_event_sets)(list(l))
                 coq_ops.append(f"{'OUpdOut' if k == 'out' else 'OUpdIn'} {coq_list([x[1:] + '%positive' for x in l])}")
             elif k == "get":
@@ -93,7 +93,11 @@ def stale_histories(out, n):
                 coq_ops.append("OGet")
             else:
                 raw = ev.events_to_raw_input({"X": e})
+                before = canon_events({"X": e})
                 e = ev.raw_input_to_events(json.loads(json.dumps(raw)))["X"]
+                if canon_events({"X": e}) != before:
+                    bad.append(dict(kind="model file does not round-trip (a successor/predecessor set or count was lost)",
+                                    ops=ops + [k], before=before, after=canon_events({"X": e}), saved=raw))
                 coq_ops.append("OSaveLoad")
             ops.append(k)
         stale_flag = bool(e._update_since_logic_gate_tree)
@@ -101,7 +105,9 @@ def stale_histories(out, n):
         has_sets = len(e.event_sets) > 0
         if has_sets and tree is None:
             bad.append(dict(kind="gate tree missing for an event with successor evidence (stale cache after reload)", ops=ops))
-        rows.append(f"({coq_list(coq_ops)}, {str(stale_flag).lower()}, {str(tree is None).lower()})")
+        def cs(sets):
+            return coq_list([coq_list([f"({k[1:]}%positive, {v}%nat)" for k, v in sorted(s.items(), key=lambda kv: int(kv[0][1:]))]) for s in sets])
+        rows.append(f"({coq_list(coq_ops)}, {str(stale_flag).lower()}, {str(tree is None).lower()}, {cs(e.event_sets)}, {cs(e.in_event_sets)})")
     return rows, bad
 
 
@@ -185,14 +191,19 @@ Eval vm_compute in (2%nat, idx (fun c => match load (save (ingest (fst c))) with
 From V Require Import Puml.Ast Pv.EventModel.
 Open Scope positive_scope.
 Definition T := list mset.
-Definition cases : list (list op * bool * bool) := [
+Definition cases : list (list op * bool * bool * list mset * list mset) := [
  {body}].
+Definition mset_eqb (a b : mset) := match mset_cmp a b with Eq => true | _ => false end.
+Definition sub (a b : list mset) := forallb (fun x => existsb (mset_eqb x) b) a.
+Definition seteq a b := sub a b && sub b a.
 Definition idx {{A}} (f : A -> bool) (l : list A) : list nat := map fst (filter (fun p => negb (f (snd p))) (combine (seq 0 (length l)) l)).
 Definition obs (v0 : bool) (ops : list op) : bool * bool :=
   let s := run_ops T (fun x => x) v0 ops in (e_stale T s, match fst (get_tree T (fun x => x) s) with None => true | Some _ => false end).
 Definition same (a b : bool * bool) := Bool.eqb (fst a) (fst b) && Bool.eqb (snd a) (snd b).
-Eval vm_compute in (3%nat, idx (fun c => same (obs false (fst (fst c))) (snd (fst c), snd c)) cases).
-Eval vm_compute in (4%nat, idx (fun c => same (obs true (fst (fst c))) (snd (fst c), snd c)) cases).
+Definition sets_ok (v0 : bool) (ops : list op) (o i : list mset) :=
+  let s := run_ops T (fun x => x) v0 ops in seteq (e_outs T s) o && seteq (e_ins T s) i.
+Eval vm_compute in (3%nat, idx (fun c => let '(ops, st, tn, o, i) := c in same (obs false ops) (st, tn) && sets_ok false ops o i) cases).
+Eval vm_compute in (4%nat, idx (fun c => let '(ops, st, tn, o, i) := c in same (obs true ops) (st, tn) && sets_ok true ops o i) cases).
 """))
     import time as _t, sys as _s
     _t0 = _t.time()
